@@ -277,6 +277,10 @@ class MCNP_Problem:
                             obj = obj_parser(input)
                             obj.link_to_problem(self)
                             obj_container.append(obj)
+                            if isinstance(obj, Material):
+                                self._materials.append(obj)
+                            if isinstance(obj, transform.Transform):
+                                self._transforms.append(obj)
                         except (
                             MalformedInputError,
                             NumberConflictError,
@@ -291,10 +295,6 @@ class MCNP_Problem:
                                 continue
                             else:
                                 raise e
-                        if isinstance(obj, Material):
-                            self._materials.append(obj)
-                        if isinstance(obj, transform.Transform):
-                            self._transforms.append(obj)
                     if trailing_comment is not None and last_obj is not None:
                         obj._grab_beginning_comment(trailing_comment)
                         last_obj._delete_trailing_comment()
